@@ -26,6 +26,8 @@ StorageSlots(l) == {i \in AllocSlots(l) : l.slots[i].type = 1}
 SibEdges(l) == {<<i, j>> \in AllocSlots(l) \X AllocSlots(l) :
                   i # 1 /\ (l.slots[i].left = j - 1 \/ l.slots[i].right = j - 1)}
 
+StreamTimes == << <<27, 5, 9>>, <<524288, 0, 0>>, <<1048575, 4194303, 4194303>> >>       \* (three 20 / 22 / 22-bit limbs)
+
 Singles(l) ==
      {[kind |-> "fat_zero_pad", grp |-> "alloc", at |-> 0, val |-> 0]}
   \* the stale cell of an unmarked FAT sector may hold anything: end / free markers, the DIFAT marker, an ordinary sector
@@ -41,7 +43,9 @@ Singles(l) ==
   \cup {[kind |-> "red_red", grp |-> "dir", at |-> e, val |-> 0] : e \in SibEdges(l)}
   \cup {[kind |-> "unterminated", grp |-> "dir", at |-> i, val |-> 0] : i \in AllocSlots(l)}
   \cup {[kind |-> "root_name", grp |-> "dir", at |-> 1, val |-> v] : v \in 1..Len(WrongRootNames)}
-  \cup {[kind |-> k, grp |-> "dir", at |-> i, val |-> 0] : k \in {"stream_clsid", "stream_ctime", "stream_mtime"}, i \in StreamSlots(l)}
+  \cup {[kind |-> "stream_clsid", grp |-> "dir", at |-> i, val |-> 0] : i \in StreamSlots(l)}
+  \* a time on a stream: a small value, one with the top bit set (2^63 ticks), all ones (uninitialised memory)
+  \cup {[kind |-> k, grp |-> "dir", at |-> i, val |-> v] : k \in {"stream_ctime", "stream_mtime"}, i \in StreamSlots(l), v \in 1..3}
   \cup {[kind |-> "storage_start", grp |-> "dir", at |-> i, val |-> v] : i \in StorageSlots(l), v \in {5, ENDC, FREE}}
   \cup {[kind |-> "storage_size", grp |-> "dir", at |-> i, val |-> 77] : i \in StorageSlots(l)}
   \cup {[kind |-> "hdr_nfat", grp |-> "hdr", at |-> 0, val |-> v] : v \in {Len(l.fatsecs) + 1, 0}}
@@ -62,8 +66,8 @@ Apply(l, d) ==
     [] d.kind = "unterminated"    -> [l EXCEPT !.slots[d.at] = [unterminated |-> TRUE] @@ @]
     [] d.kind = "root_name"       -> [l EXCEPT !.slots[1] = [rawname |-> WrongRootNames[d.val]] @@ @]
     [] d.kind = "stream_clsid"    -> [l EXCEPT !.slots[d.at].clsid = Ones]
-    [] d.kind = "stream_ctime"    -> [l EXCEPT !.slots[d.at].ct = <<27, 5, 9>>]
-    [] d.kind = "stream_mtime"    -> [l EXCEPT !.slots[d.at].mt = <<0, 0, 1>>]
+    [] d.kind = "stream_ctime"    -> [l EXCEPT !.slots[d.at].ct = StreamTimes[d.val]]
+    [] d.kind = "stream_mtime"    -> [l EXCEPT !.slots[d.at].mt = StreamTimes[4 - d.val]]
     [] d.kind = "storage_start"   -> [l EXCEPT !.slots[d.at].start = d.val]
     [] d.kind = "storage_size"    -> [l EXCEPT !.slots[d.at].size = d.val]
     [] d.kind = "hdr_nfat"        -> SetHdr(l, "nfat", d.val)
